@@ -112,13 +112,14 @@ def catalogue():
     for d in (4, 10):
         r = math.ceil(d / 2)
         add(f"Sphere_{d}", {"cls": "Sphere", "d2": d}, [-r] * 3, [r] * 3)
-    for r1, r2, h, p1, p2 in [(2, 4, 4, 0, 2), (0, 4, 4, -1, 3), (2, 5, 6, 2, 8), (1, 3, 2, -4, -1), (2, 4, 4, 1, 7), (2, 4, 2, 0, 8), (0, 4, 2, 0, 8)]:
+    for r1, r2, h, p1, p2 in [(2, 4, 4, 0, 2), (0, 4, 4, -1, 3), (2, 5, 6, 2, 8), (1, 3, 2, -4, -1), (2, 4, 4, 1, 7), (2, 4, 2, 0, 8), (0, 4, 2, 0, 8),
+                               (2, 4, 4, -7, -5), (1, 3, 2, -6, -3)]:       # section angles below -180 degrees
         add(f"CylinderSegment_{r1}_{r2}_{h}_{p1}_{p2}".replace("-", "m"),
             {"cls": "CylinderSegment", "r12": r1, "r22": r2, "h2": h, "p1": p1, "p2": p2}, [-r2, -r2, -math.ceil(h / 2)], [r2, r2, math.ceil(h / 2)])
     for i, v in enumerate((T1, T2)):
         lo, hi = _bbox_of_points(v)
         add(f"Tetrahedron_{i + 1}", {"cls": "Tetrahedron", "v2": [list(p) for p in v]}, lo, hi)
-    for name, f2, mk in [("box", box_mesh((4, 2, 6)), "convex"), ("boxax", box_mesh((4, 2, 6)), "axial"), ("L", cell_mesh(L_CELLS), "axial"),
+    for name, f2, mk in [("box", box_mesh((4, 2, 6)), "convex"), ("box2", box_mesh((2, 6, 4)), "convex"),      # box2: same face count as box, other geometry ("boxax", box_mesh((4, 2, 6)), "axial"), ("L", cell_mesh(L_CELLS), "axial"),
                          ("U", cell_mesh(U_CELLS), "axial"), ("octa", octa_mesh(4), "convex"), ("tetra", tetra_mesh(T2), "convex"),
                          ("prism", prism_mesh(), "convex")]:
         lo, hi = _bbox_of_points(f2)
@@ -475,8 +476,9 @@ def plan(tier):
         if name in ("Cuboid_4_4_8", "Sphere_4", "Triangle_1", "Dipole_1", "Polyline_1"):
             new("field", body=name, ri=0, p2=[0, 0, 0], kap={"id": True, "dec": 0, "salt": ""}, m=1.0, inout="auto", batch="box", iface="core")
     # two meshes in one call
-    pairs = [("TriangularMesh_box", "TriangularMesh_octa"), ("TriangularMesh_octa", "TriangularMesh_box"), ("TriangularMesh_tetra", "TriangularMesh_L")]
-    for a, b in pairs if not quick else pairs[:2]:
+    pairs = [("TriangularMesh_box", "TriangularMesh_octa"), ("TriangularMesh_box", "TriangularMesh_box2"), ("TriangularMesh_box2", "TriangularMesh_box"),
+             ("TriangularMesh_octa", "TriangularMesh_box"), ("TriangularMesh_tetra", "TriangularMesh_L")]
+    for a, b in pairs if not quick else pairs[:3]:
         new("multi", bodies=[a, b], ris=[0, 0], p2s=[[6, 0, 0], [0, 0, 0]], kap={"id": True, "dec": 0, "salt": ""}, m=1.0, sub="core")
     # attribute law
     decs = [-12, -6, -3, 0, 3, 6, 12] if quick else list(range(-12, 13))
